@@ -171,7 +171,7 @@ EXTRA = {
     "C06": "Further phase 'badbatch' (rejection-heavy partitioned histories, no injected faults); 'error means absent' is also judged with the filesystem store as MetaStore unless a cleanup call itself was made to fail.",
     "C08": "Further phase 'stoprace' (see C05). When wedged: abandoned channels on producer batches, deep-backlog and quiet-wedge shapes, Flush callers queued behind the wedge (must return, and with an error after a deadline error). Abandoned empty/unmarshalable batches too.",
     "C10": "Generator modes: mixed limits, exactly one binding limit, and a trickle of small/empty requests inside every time window; answers are time-stamped by live receivers and bounded from each batch's own acceptance. Also a hum of empty requests faster than any polling period, and skewed multi-partition batches for the row-group byte limit; the obligation is re-derived from the still-unanswered batches when the buffer model may be stale.",
-    "C13": "Single-flight is checked with three further Merge calls made one after the other while the first is gated. A third of the cases run the Merge against a MetaStore that is the in-memory DataStore itself; every committed output must be a whole bloom file.",
+    "C13": "Single-flight is checked with three further Merge calls made one after the other while the first is gated. A third of the cases run the Merge against a MetaStore that is the in-memory DataStore itself; every committed output must be a whole bloom file. A merge that did not commit must also leave the block metadata the MetaStore serves unchanged.",
     "C16": "Sequences include redundant Close/Abort/Write calls on a writer whose Close already succeeded. Also a Close made to fail before publishing (its .tmp removed) whose owner aborts and tombstones only later. Payloads up to 300 KB written as a tiny first chunk plus large chunks. A third of the cases root the store at a path whose components contain .dat/.tmp.",
     "C19": "Further phase 'transplant': a block's row data replaced by a complete valid compressed stream of identical sizes written to another store. Hostile metadata includes cooperating pairs (a negative section size plus an extent beyond the file). Further phase 'metahostile': hostile filter section extents in MetaStore-held metadata for one of several healthy files.",
     "C20": "Scripts include 2-4 concurrent Close calls and a settle stall before a deliberate Close when faults are planned. Also a slow walk through buffered rows with a concurrent Close (repeated), and a world with a malformed block whose scan fails after its rows were matched. Store errors may wrap a context error of their own; 60-90 file worlds back the pipeline up to the candidate-pulling stage before Close/cancel.",
@@ -187,7 +187,7 @@ EXTRA = {
     "C17": "Further phases: 'faulted' (histories with one-shot store failures inside) and 'shapes' (extreme but legal block shapes: compression ratios in the thousands, one 1.5 MB row, empty rows). Further phase 'concurrent': ingest+flush steps carried out while Merge runs (slowed store writes); faulted histories retry a failed merge on the same engine.",
     "C18": "Further phases 'faulted' and 'shapes' (as C17). Further phase 'concurrent' (see C17).",
     "C23": "The fault phase also queries the multi-chunk filter world with an expression that rules out most blocks, and a world with a malformed block. Every second query of the clean phases has Stats polled while in flight.",
-    "C27": "Scenarios include double faults (a failure and the failure of the cleanup it provokes) aimed at a Merge that has a group to commit.",
+    "C27": "Scenarios include double faults (a failure and the failure of the cleanup it provokes) aimed at a Merge that has a group to commit. Scenarios also choose the stores (in-memory or FileSystemDataStore as DataStore / as both), MaxQueryConcurrency 1-4, bursts of small files, early-ended queries and several kinds of file damage.",
     "C07": "40% of the runs end with Stop instead of a final Flush while flushes are still queued. A third of the schedules contain one-shot store failures with a slow Abort/TombstoneFile, so failed flushes owe their error answers while later requests queue behind them.",
     "C22": "15% of the cases use a file whose block filter region spans several 4 MiB chunks, queried with bloom conditions on a budget of 1-2.",
 }
